@@ -66,6 +66,19 @@ def call_values():
             yield lib, cls(**kwargs)
 
 
+def scaled_values():
+    """Deterministic larger values: long flat containers around the 3n > 150 shortcut, deep chains."""
+    for n in (50, 51, 150):
+        yield 'scaled', list(range(n))
+        yield 'scaled', tuple(range(n))
+        yield 'scaled', {i: i for i in range(n)}
+        yield 'scaled', set(range(n))
+    for rec in ((0,), (1,), (3,), (0, 3), (5,), (6,)):
+        for depth in (8, 20):
+            for leaf in ('', 'a b', 1):
+                yield 'scaled', values.chain(rec, depth, leaf)
+
+
 def everything(tree_nodes):
     fixtures.register()
-    return itertools.chain(builtin_trees(tree_nodes), stdlib_values(), subclass_values(), commented_values(), call_values())
+    return itertools.chain(builtin_trees(tree_nodes), scaled_values(), stdlib_values(), subclass_values(), commented_values(), call_values())
